@@ -24,7 +24,7 @@ RULE = ("Hypothesis draws a prior store state (history of 0-5 API calls), a clie
         "the API's cid / size / every digest / hex digest / document path relative to the root / "
         "first 1000 bytes of content; alpha(client copy) == alpha(API copy) (python_client.log "
         "ignored); a store created by the client opens through the API with the same properties and "
-        "vice versa. Non-trivial = >=1 option beyond -pid / -path, or create against an existing store; "
+        "vice versa. Non-trivial = >=1 option beyond -pid / -path, a -path value that is not the plain name of the file (trailing separator, dot segments, a directory, no such file), or create against an existing store; "
         "distinct key = (verb, option subset, value classes, prior-state shape, outcome)."
         ' create also runs against a directory that holds store data but no hashstore.yaml (refused by both, data intact) and against a populated store with the same configuration.')
 ASSUMPTIONS = ["-deletemetadata without -formatid corresponds to deleting the default-namespace document "
@@ -48,7 +48,11 @@ def _case(draw, tier):
     c = {"cfg": cfg, "contents": [{"hex": "68656c6c6f20776f726c640d0a" * 3}, {"hex": ("c3a9" + "61" * 30) * 50}],
          "docs": [{"hex": "3c6d2f3e0d0a3c2f6d3e"}, {"hex": ("3c78" + "c3a9" + "2f3e") * 300}],
          "ops": draw(ops.history(op, 0, 5)), "verb": verb, "pid": draw(st.sampled_from(PIDS + ["unknown"])),
-         "c": draw(st.integers(0, 1))}
+         "c": draw(st.integers(0, 1)),
+         # how the -path value is spelled: the same string goes to the API ("options reach the API with the types it requires",
+         # unedited): a trailing separator or "/." behind a regular file, no such file, a directory, "./" segments inside
+         "path_form": draw(st.sampled_from(["plain"] * 6 + ["trailing-slash", "trailing-slash-dot", "missing", "directory",
+                                                            "dot-segments", "double-slash"]))}
     if verb == "storeobject":
         c["opts"] = draw(st.sets(st.sampled_from(["algo", "checksum", "checksum_algo", "obj_size"])).map(sorted))
         c["algo"] = draw(st.one_of(gen.algo_spelling(), st.sampled_from(["sm3", "sha"])))
@@ -76,6 +80,15 @@ def _case(draw, tier):
 
 def strategy(tier):
     return _case(tier)
+
+
+def _spell(path, form, ctx):
+    if form in (None, "plain"):
+        return path
+    ctx.classify("path-form=" + form)
+    d, b = os.path.split(path)
+    return {"trailing-slash": path + "/", "trailing-slash-dot": path + "/.", "missing": path + ".no-such-file", "directory": d,
+            "dot-segments": os.path.join(d, ".", b), "double-slash": d + "//" + b}[form]
 
 
 def run_client(argv):
@@ -165,6 +178,7 @@ def run_case(case, ctx):
             path = common.write_file(os.path.join(run.src, "~samples_$HSVSITE.csv"), data)
             common.write_file(os.path.join(run.src, "~samples_alpha.csv"), b"the expanded twin - other bytes")
             ctx.classify("path-with-dollar-and-tilde")
+        path = _spell(path, case.get("path_form"), ctx)
         argv.append(f"-path={path}")
         import hashlib
         algo = cks = cks_algo = size = None
@@ -207,8 +221,9 @@ def run_case(case, ctx):
             argv.append(f"-formatid={fmt}")
         eff = cfg.ns if fmt is None else fmt
         if verb == "storemetadata":
-            argv.append(f"-path={run.dpaths[case['c']]}")
-            outA = call(api.store_metadata, pid, run.dpaths[case["c"]], eff)
+            mpath = _spell(run.dpaths[case["c"]], case.get("path_form"), ctx)
+            argv.append(f"-path={mpath}")
+            outA = call(api.store_metadata, pid, mpath, eff)
             if is_ok(outA):
                 stdout_checks = [os.path.relpath(str(outA[1]), rootA)]
         elif verb == "retrievemetadata":
@@ -247,10 +262,11 @@ def run_case(case, ctx):
         ctx.violation("client-api-state", f"{desc}: {p}", {"verb": verb, "aspect": "modes"})
     ctx.classify("verb=" + verb)
     ctx.classify("outcome=" + ("ok" if is_ok(outA) else "error"))
-    if opts:
+    pf = case.get("path_form", "plain") if verb in ("storeobject", "storemetadata") else "plain"
+    if opts or pf != "plain":
         vals = [case.get("cks") if "checksum" in opts else None, case.get("size") if "obj_size" in opts else None,
                 gen.canon(case.get("algo") or "") if "algo" in opts else None]
-        ctx.nontrivial([verb, opts, vals, len(case["ops"]), _oc(outA)])
+        ctx.nontrivial([verb, opts, vals, len(case["ops"]), _oc(outA), pf])
         ctx.sample({"argv": [a if not a.startswith("/") else "<store>" for a in argv][1:], "api": _oc(outA),
                     "client": _oc(outC), "stdout_head": stdout[:120]})
 
